@@ -47,3 +47,12 @@ LEVEL_NOTE["C15"] = "Policy half uses an internal test overlaid into package gne
 LEVEL_TEXT["C17"] = ("Exploration: generated IP/port/zone/Unix addresses are converted to the kernel socket-address form and back (both directions checked: the kernel form itself and the round trip, zones by interface index and textual form); "
                      "invalid IP lengths, unsupported Unix networks and unknown address types must yield nil without panic. Engine-level sessions compare RemoteAddr/LocalAddr with the peers' own addresses under connection churn.")
 LEVEL_NOTE["C17"] = "Zone names that are neither an existing interface nor a decimal number have no kernel representation and are outside the domain; numeric zones below 0xFFFFFF."
+
+LEVEL_TEXT["C13"] = ("Exploration over schedules: the unmodified queue source (its sync/atomic calls re-qualified to yielding wrappers at check time) runs under a cooperative scheduler owned by the harness, so the interleaving of single atomic "
+                     "operations is a generated, shrinkable input (random walk, PCT, and every schedule with <= 2-3 pre-emptions for all 2-thread x 2-operation scripts); each call/return history is decided by porcupine against a sequential FIFO model, "
+                     "plus quiescent Length/IsEmpty, drain-exactly-once and per-producer order. A -race stress run with real goroutines supplements it.")
+LEVEL_NOTE["C13"] = "Sampling, not enumeration, beyond the bounded-exhaustive scripts; assumes all shared accesses are sync/atomic function calls (scheduling points are inserted there); trusts porcupine v1.3.0."
+LEVEL_TEXT["C03"] = ("Exploration over schedules: layer A runs the real Trigger/Polling code of both epoll pollers (atomics, queue operations and eventfd/epoll system calls are scheduling points; the eventfd and epoll objects are the real kernel ones) "
+                     "under the harness-owned scheduler and checks at quiescence - loop parked in epoll_wait with nothing ready - that every accepted request ran exactly once on the loop thread and high-priority requests of a producer ran in issue order; "
+                     "layer B drives the engine's asynchronous API from several goroutines with generated scripts and checks exactly-once effects/callbacks and issue order at the peer.")
+LEVEL_NOTE["C03"] = "kqueue pollers cannot execute on Linux; interleavings are sampled (random walk / PCT) and enumerated only up to 2 pre-emptions for the smallest configurations; a bounded-unfairness rule (a thread is passed over after 64 consecutive steps) is needed because the loop legitimately spins while a producer sits between linking a node and publishing the queue length."
